@@ -16,8 +16,10 @@ func init() {
 	}
 	harness.Specs["C06"] = &harness.PropSpec{
 		ID: "C06", Test: "TestC06", Kind: "queue", Level: "fault_enumeration",
-		Quick: 320, Thorough: 1600,
-		Rule: "evaluations = generated producer/consumer histories (as C05, incl. queue/file reopen points which are checked by drain probes) recorded on the " +
+		Quick: 256, Thorough: 1600,
+		Rule: "two parts. (1) clean reopen points: generated producer/consumer histories in which queue and file are closed and reopened after flushes, reader " +
+			"sections and ACKs (24 histories per generated case), each reopen followed by a drain probe: a fresh reader must deliver exactly the flushed un-ACKed " +
+			"events; (2) crash points: generated producer/consumer histories recorded on the " +
 			"simulated disk with markers around every writer call, ACK and queue close; for every op-log position after queue creation all crash images (subsets " +
 			"of un-synced writes, torn header) are reopened through txfile open + NewStandaloneDelegate + pq.New and drained: the delivered sequence must be " +
 			"exactly events [a,f) with a = ACKs that returned (or, all-or-nothing, the ACK in progress) and f = events reported flushed (or the flush in " +
@@ -61,4 +63,18 @@ func RunC06(p *harness.QProgram, thorough bool) Result {
 	c["recovered-old-in-window"] = st.RecoveredTo["old"]
 	c["enumeration-capped"] = st.Capped
 	return Result{V: v, Counters: c, Nontrivial: st.Nontrivial > 0}
+}
+
+// RunC06Reopen executes a history with clean close/reopen points; every
+// reopen is followed by a drain probe (a fresh reader must deliver exactly the
+// flushed, un-ACKed events in order).
+func RunC06Reopen(p *harness.QProgram) Result {
+	r, v := harness.NewQRunner(p, harness.QOpts{CheckCounters: true})
+	if v != nil {
+		return Result{V: v}
+	}
+	v = r.Run()
+	c := r.Counters
+	nt := has(c, "reopen-file", "reopen-queue") && has(c, "ack") && has(c, "probe-partially-acked", "probe-empty-after-ack")
+	return Result{V: v, Counters: c, Nontrivial: nt}
 }
